@@ -326,6 +326,67 @@ def _case(repo, it, S, spec):
     return n, out
 
 
+def _cut_case(repo, it, S, spec):
+    """chunk-relative export of genes cut by the chunk: every exon row is a source exon clipped to the chunk and shifted, all
+    rows lie on the chunk, every CDS row lies inside an exon row of its transcript"""
+    mi, (cs, ce) = spec
+    out = []
+    q_ac = "gene.collections:AnnotationCollection.to_gff"
+    m = models()[mi]
+    parent = chunk_parent(it, GENOME, cs, ce, alphabet="NT_EXTENDED")
+    desc = f"gene {m['gene_id']} on chunk [{cs},{ce}) exported chunk-relative"
+    try:
+        g = build(it, S, parent, m)
+        ac = mk_collection(it, [g], None, sequence_name="chr1", parent_or_seq_chunk_parent=parent)
+    except Raised as ex:
+        return 1, [("construct on a cutting chunk", f"{desc}: construction raises {ex.exc_name}", q_ac)]
+    k, v = run(it, repo.fn(q_ac), [], {"chromosome_relative_coordinates": False}, ac)
+    if k != "ok":
+        return 1, [("export on a cutting chunk", f"{desc}: to_gff raises {v}", q_ac)]
+    try:
+        rows = [decode_row(it.py_str(r)) for r in it.iterate(v)]
+    except Raised as ex:
+        return 1, [("export on a cutting chunk", f"{desc}: str(GFFRow) raises {ex.exc_name}", "io.gff3.rows:GFFRow.__str__")]
+    if any(d is None for d in rows):
+        return 1, [("row syntax", f"{desc}: a row is not 9-column GFF3", q_ac)]
+    L = ce - cs
+    for d in rows:
+        if not (1 <= d["start"] <= d["end"] <= L):
+            out.append(("rows on the chunk", f"{desc}: {d['type']} row {d['start']}-{d['end']} lies outside the chunk sequence 1-{L}",
+                        "gene.transcript:TranscriptInterval.to_gff"))
+            break
+    by_id = {next(iter(d["attrs"]["ID"])): d for d in rows if d["attrs"].get("ID")}
+    for t in m["transcripts"]:
+        want = sorted((max(s_, cs) - cs + 1, min(e, ce) - cs) for s_, e in t["exons"] if max(s_, cs) < min(e, ce))
+        txrows = [d for d in rows if d["type"] == "transcript" and t["transcript_id"] in d["attrs"].get("transcript_id", set())]
+        if not want:
+            continue
+        if len(txrows) != 1:
+            out.append(("transcript row on a cutting chunk", f"{desc}: {len(txrows)} transcript rows for {t['transcript_id']}", q_ac))
+            continue
+        tid = next(iter(txrows[0]["attrs"]["ID"]))
+        ex = sorted((d["start"], d["end"]) for d in rows if d["type"] == "exon" and tid in d["attrs"].get("Parent", set()))
+        if ex != want:
+            out.append(("exon rows on a cutting chunk", f"{desc}: transcript {t['transcript_id']} exon rows {ex}; the source exons clipped to the "
+                        f"chunk and shifted are {want}", "gene.transcript:TranscriptInterval.to_gff"))
+        if (txrows[0]["start"], txrows[0]["end"]) != (want[0][0], want[-1][1]):
+            out.append(("transcript row on a cutting chunk", f"{desc}: transcript {t['transcript_id']} row {txrows[0]['start']}-{txrows[0]['end']}; "
+                        f"clipped span is {want[0][0]}-{want[-1][1]}", "gene.transcript:TranscriptInterval.to_gff"))
+        for d in rows:
+            if d["type"] == "CDS" and tid in d["attrs"].get("Parent", set()):
+                if not any(a <= d["start"] and d["end"] <= b for a, b in ex):
+                    out.append(("CDS inside an exon on a cutting chunk", f"{desc}: CDS row {d['start']}-{d['end']} of {t['transcript_id']} lies in no "
+                                f"exon row {ex}", "gene.cds:CDSInterval.to_gff"))
+    return 1, out
+
+
+def rc_cut_chunks(ctx):
+    specs = [(0, w) for w in ((8, 24), (2, 12), (12, 30), (5, 22))] + [(1, w) for w in ((33, 45), (28, 42), (35, 49))]
+    results = pmap(_runner(ctx.repo, _cut_case), specs, min_items=2)
+    _report(ctx, "C11.RC", results, [("gene.transcript:TranscriptInterval.to_gff", "exon / transcript rows of cut transcripts"),
+                                     ("gene.cds:CDSInterval.to_gff", "CDS rows inside exon rows")])
+
+
 def rk_export(ctx):
     specs = []
     for which in ((0,), (1,), (2,), (0, 1, 2), (1, 2)):
@@ -399,6 +460,14 @@ def rk_reserved(ctx):
         r.check(bool(ok), "C11.RR", w.qual, f"file layout add_sequences={add_seq}",
                 f"collection_to_gff3(add_sequences={add_seq}) -> {k}:{v if k != 'ok' else ''}; lines {handle[:3]}...: header / "
                 f"sequence-region / rows / ##FASTA / sequence layout is wrong", w)
+        # the documented argument is any iterable of collections: a one-shot iterator gives the same file as a list
+        from ..interp import _Gen
+        for how, arg in (("generator", _Gen([ac])), ("tuple", (ac,))):
+            h2 = []
+            k2, v2 = run(it, w, [arg, h2], {"add_sequences": add_seq}, None)
+            r.check(k2 == k and h2 == handle, "C11.RR", w.qual, f"{how} of collections, add_sequences={add_seq}",
+                    f"collection_to_gff3 given a {how} of collections (add_sequences={add_seq}) writes {len(h2)} lines ({k2}); given a list it "
+                    f"writes {len(handle)}: a one-shot iterable is consumed before the export", w)
 
 
 def r1_escape_tables(ctx):
@@ -430,6 +499,7 @@ def r1_escape_tables(ctx):
 
 RULES = [
     ("C11.RK", rk_export),
+    ("C11.RC", rc_cut_chunks),
     ("C11.RR", rk_reserved),
     ("C11.R1", r1_escape_tables),
 ]
